@@ -709,4 +709,114 @@ theorem webBundleId_injective (p q : Bytes) (hp : p.length = 32) (hq : q.length 
     (by rw [List.length_append, hp]; rfl) (by rw [List.length_append, hq]; rfl) h
   exact List.append_cancel_right this
 
+/-! ### completeness / non-vacuity: the success path is attainable -/
+
+theorem ib_attrsCbor_single (k v : Bytes) :
+    attrsCbor [(k, v)] = .ok (encodeMapHeader 1 ++ (attrKey k ++ encodeBytes v)) := by
+  unfold attrsCbor encodeMap sortEntries
+  simp only [List.map_cons, List.map_nil, List.mergeSort_singleton, hasAdjDup, List.length_cons, List.length_nil,
+    List.flatten_cons, List.flatten_nil, List.append_nil]
+  rfl
+
+theorem ib_utf8Valid_ascii : ∀ (l : Bytes), (∀ c ∈ l, c < 0x80) → utf8Valid l = true
+  | [], _ => by rw [utf8Valid]
+  | c :: rest, h => by
+    rw [utf8Valid.eq_def]
+    simp only [if_pos (h c List.mem_cons_self)]
+    exact ib_utf8Valid_ascii rest (fun c' hc' => h c' (List.mem_cons_of_mem _ hc'))
+
+theorem ib_key_utf8 : utf8Valid kEd25519PublicKey = true := ib_utf8Valid_ascii _ (by decide)
+
+/-- completeness (the hypotheses of `signFile_layout` are attainable): a file whose trailing length equals
+    its size, a strategy that signs and a signature that verifies give the block followed by the file -/
+theorem signFile_succeeds (H512 : Bytes → Bytes) (sign : Bytes → Option Bytes) (edVerify : Bytes → Bytes → Bytes → Bool)
+    (pk file dts sig : Bytes) (hlen : file.length < 2 ^ 63) (h8 : 8 ≤ file.length)
+    (htr : beVal (file.drop (file.length - 8)) = file.length)
+    (hpk : pk.length < 2 ^ 64) (hsig : sig.length < 2 ^ 64)
+    (hdts : dataToBeSigned (H512 file) emptyBlockBytes [(kEd25519PublicKey, pk)] = .ok dts)
+    (hs : sign dts = some sig) (hv : edVerify pk dts sig = true) :
+    ∃ blockBytes,
+      blockCbor { magic := blockMagic, version := versionB1,
+                  stack := [{ attrs := [(kEd25519PublicKey, pk)], signature := sig }] } = .ok blockBytes ∧
+      signFile H512 sign edVerify pk file = .ok (some (blockBytes ++ file)) := by
+  have ho : obtain file = some (emptyBlock, 0) := by
+    cases ho : obtain file with
+    | none =>
+      have := (obtain_iff file hlen).mpr ⟨h8, htr⟩
+      rw [ho] at this; cases this
+    | some r =>
+      obtain ⟨blk, off⟩ := r
+      obtain ⟨rfl, rfl⟩ := obtain_some file blk off ho
+      rfl
+  have hde : Det.deterministic emptyBlockBytes = .ok () :=
+    blockCbor_deterministic_check emptyBlock _ blockCbor_emptyBlock (by intro s hs; cases hs)
+      ⟨by decide, by decide, by decide, by intro s hs; cases hs⟩
+  have hsa := (signAndAdd_ok_iff sign edVerify (H512 file) emptyBlock pk [(kEd25519PublicKey, pk)] _).mpr
+    ⟨emptyBlockBytes, dts, sig, blockCbor_emptyBlock, hde, hdts, hs, hv, rfl⟩
+  have hb : ∃ bytes,
+      blockCbor { magic := blockMagic, version := versionB1,
+                  stack := [{ attrs := [(kEd25519PublicKey, pk)], signature := sig }] } = .ok bytes := by
+    unfold blockCbor
+    simp only [stackCbor, sigCbor, ib_attrsCbor_single, bind, Except.bind, pure, Except.pure]
+    exact ⟨_, rfl⟩
+  obtain ⟨bytes, hb⟩ := hb
+  have hd : Det.deterministic bytes = .ok () := by
+    refine blockCbor_deterministic_check _ bytes hb ?_ ⟨by show blockMagic.length < 2 ^ 64; decide,
+      by show versionB1.length < 2 ^ 64; decide, by show 1 < 2 ^ 64; decide, ?_⟩
+    · intro s hs kv hkv
+      rcases List.mem_cons.mp hs with rfl | hs
+      · rcases List.mem_cons.mp hkv with rfl | hkv
+        · exact ib_key_utf8
+        · cases hkv
+      · cases hs
+    · intro s hs
+      rcases List.mem_cons.mp hs with rfl | hs
+      · refine ⟨hsig, by show 1 < 2 ^ 64; decide, ?_⟩
+        intro kv hkv
+        rcases List.mem_cons.mp hkv with rfl | hkv
+        · exact ⟨by show kEd25519PublicKey.length < 2 ^ 64; decide, hpk⟩
+        · cases hkv
+      · cases hs
+  refine ⟨bytes, hb, ?_⟩
+  unfold signFile
+  simp only [ho, List.drop_zero, hsa]
+  have hb' : blockCbor { emptyBlock with stack := ⟨[(kEd25519PublicKey, pk)], sig⟩ :: emptyBlock.stack } = .ok bytes := hb
+  simp only [hb', hd]
+
+
+theorem ib_dataToBeSigned_single (hash bb k v : Bytes) :
+    ∃ dts, dataToBeSigned hash bb [(k, v)] = .ok dts := by
+  unfold dataToBeSigned
+  simp only [ib_attrsCbor_single, bind, Except.bind, pure, Except.pure]
+  exact ⟨_, rfl⟩
+
+/-- a concrete run of the tool that succeeds (8-byte file whose trailer says 8) -/
+example : ∃ out, signFile (fun _ => []) (fun _ => some [1]) (fun _ _ _ => true) [] [0, 0, 0, 0, 0, 0, 0, 8]
+    = .ok (some out) := by
+  obtain ⟨dts, hd⟩ := ib_dataToBeSigned_single [] emptyBlockBytes kEd25519PublicKey []
+  obtain ⟨bb, _, h⟩ := signFile_succeeds (fun _ => []) (fun _ => some [1]) (fun _ _ _ => true) []
+    [0, 0, 0, 0, 0, 0, 0, 8] dts [1] (by decide) (by decide) (by decide) (by decide) (by decide) hd rfl rfl
+  exact ⟨_, h⟩
+
+/-- a trailer that disagrees with the file size (e.g. a file that already carries a block) is refused -/
+example : obtain [0, 0, 0, 0, 0, 0, 0, 7] = none := by decide
+/-- a "negative" trailer is refused -/
+example : obtain [0xff, 0xff, 0xff, 0xff, 0xff, 0xff, 0xff, 0xf8] = none := by decide
+
+/-- a history with one failing operation (skipped) and one successful operation -/
+example : (signMany (fun _ _ _ => true) []
+      [⟨fun _ => none, [], [(kEd25519PublicKey, [])]⟩, ⟨fun _ => some [1], [], [(kEd25519PublicKey, [])]⟩]).1.stack
+    = [⟨[(kEd25519PublicKey, [])], [1]⟩] := by
+  have hde : Det.deterministic emptyBlockBytes = .ok () :=
+    blockCbor_deterministic_check emptyBlock _ blockCbor_emptyBlock (by intro s hs; cases hs)
+      ⟨by decide, by decide, by decide, by intro s hs; cases hs⟩
+  obtain ⟨dts, hd⟩ := ib_dataToBeSigned_single [] emptyBlockBytes kEd25519PublicKey []
+  have h1 := signAndAdd_strategy_fails (fun _ => none) (fun _ _ _ => true) [] emptyBlock []
+    [(kEd25519PublicKey, [])] emptyBlockBytes dts blockCbor_emptyBlock hde hd rfl
+  have h2 := (signAndAdd_ok_iff (fun _ => some [1]) (fun _ _ _ => true) [] emptyBlock []
+    [(kEd25519PublicKey, [])] _).mpr ⟨emptyBlockBytes, dts, [1], blockCbor_emptyBlock, hde, hd, rfl, rfl, rfl⟩
+  unfold signMany signManyFrom
+  simp only [List.foldl_cons, List.foldl_nil, signStep, h1, h2]
+  rfl
+
 end WebPkg.IB
